@@ -1704,6 +1704,10 @@ def compile_function_def(compiler, expr, root, is_async, decorators, tp, name, p
 
 def compile_function_node(compiler, expr, node, decorators, tp, name, args, returns, body, scope):
     ret = Result()
+    if returns is not None:
+        # Keep any statements the return annotation compiles to.
+        ret = compiler.compile(returns)
+        returns = ret.force_expr
 
     if body.expr:
         # implicitly return final expression,
@@ -1717,7 +1721,7 @@ def compile_function_node(compiler, expr, node, decorators, tp, name, args, retu
         args=args,
         body=body.stmts or [asty.Pass(expr)],
         decorator_list=decorators,
-        returns=compiler.compile(returns).force_expr if returns is not None else None,
+        returns=returns,
         **digest_type_params(compiler, tp),
     )
 
